@@ -6,6 +6,7 @@ import (
 	"fmt"
 	"io"
 	"runtime"
+	"sync"
 	"testing"
 
 	"verif/harness/h"
@@ -95,6 +96,15 @@ func feeder(ctrls []*bsdiff.Control) bsdiff.ReadMessageFunc {
 
 var pctx = bsdiff.NewPatchContext()
 
+type yieldBuffer struct{ buf bytes.Buffer }
+
+func (y *yieldBuffer) Write(p []byte) (int, error) {
+	runtime.Gosched()
+	n, err := y.buf.Write(p)
+	runtime.Gosched()
+	return n, err
+}
+
 type verdict struct {
 	fail  string
 	nctrl int
@@ -136,6 +146,31 @@ func judge(old, nw []byte, parts, conc, split int, full bool, warm bool) (v verd
 	if !bytes.Equal(ob.Bytes(), nw) {
 		v.fail = fmt.Sprintf("PatchContext.Patch gives %d bytes, differing from the new string (%d bytes) at %d", ob.Len(), len(nw), firstDiff(ob.Bytes(), nw))
 		return
+	}
+	if full && v.nctrl > 0 {
+		// two independent PatchContexts applying the series at the same time (two files patched by two workers):
+		// each must still produce the new string; its writer yields between writes so that the two interleave
+		var wg sync.WaitGroup
+		res := make([]string, 2)
+		for k := 0; k < 2; k++ {
+			wg.Add(1)
+			go func(k int) {
+				defer wg.Done()
+				ob := &yieldBuffer{}
+				if err := bsdiff.NewPatchContext().Patch(bytes.NewReader(old), ob, int64(len(nw)), feeder(ctrls)); err != nil {
+					res[k] = fmt.Sprintf("one of two PatchContexts applying at the same time failed: %v", err)
+				} else if !bytes.Equal(ob.buf.Bytes(), nw) {
+					res[k] = fmt.Sprintf("one of two PatchContexts applying at the same time gives %d bytes, differing from the new string (%d bytes) at %d", ob.buf.Len(), len(nw), firstDiff(ob.buf.Bytes(), nw))
+				}
+			}(k)
+		}
+		wg.Wait()
+		for _, m := range res {
+			if m != "" {
+				v.fail = m
+				return
+			}
+		}
 	}
 	if full && v.nctrl > 0 {
 		// apply controls j.. from the recorded old offset in a brand-new context
